@@ -21,7 +21,11 @@ META = {
 }
 GROUP = "planner"
 REQ = "From RV Require Import Prelude.\nFrom Planner Require Import Graph PlannerModel.\nOpen Scope N_scope."
-THEOREMS = []
+THEOREMS = ["C03_mk_graph_wf", "C03_create_plan_terminates", "C03_create_plan_total", "C03_plan_nodup",
+            "C03_plan_ops_exist", "C03_plan_valid", "C03_plan_complete", "C03_plan_minimal", "C03_plan_errors_exact",
+            "C03_plannable_never_rejected", "C03_initial_frontier_nonempty", "C03_oracle_sound", "C03_oracle_core_exact",
+            "C03_plannable_oracle_sound", "C03_example_wf", "C03_example_plans", "C03_example_sorted",
+            "C03_example_cycle", "C03_example_F11"]
 
 
 def main(ctx):
@@ -36,7 +40,7 @@ def main(ctx):
                     "hook rten::verif::planner (graph construction through Graph::add_value/add_constant/add_op, "
                     "Graph::execution_plan) and its trivial test operator"]
     ctx.audit(GROUP)
-    failed = ctx.prove(GROUP, "Props_C03", THEOREMS) if THEOREMS else []
+    failed = ctx.prove(GROUP, "Props_C03", THEOREMS)
     ok, out = ctx.make(GROUP, ["PlannerModel.vo"])
     if not ok:
         raise vf.CheckerBroken("model does not build: " + out[-1500:])
